@@ -17,6 +17,37 @@ pub struct BitWriter {
     acc: u64,
     n: u32,
 }
+
+thread_local! {
+    /// Field sabotage (robustness search, property C03): when Some((state, one_in)), every multi-purpose field written
+    /// with `put` (not the bits of prefix code words) is replaced, with probability 1/one_in, by an extreme value
+    /// (all ones, all ones - 1, 0, half range, random).  The stream stops being legal; the decoder must still not panic.
+    pub static SABOTAGE: std::cell::Cell<Option<(u64, u64)>> = const { std::cell::Cell::new(None) };
+}
+fn sabotage(v: u64, nb: u32) -> u64 {
+    SABOTAGE.with(|c| {
+        if let Some((mut st, one_in)) = c.get() {
+            st = st.wrapping_mul(6364136223846793005).wrapping_add(1442695040888963407);
+            let r = st >> 33;
+            let mut out = v;
+            if nb >= 1 && r % one_in == 0 {
+                let max = if nb >= 64 { u64::MAX } else { (1u64 << nb) - 1 };
+                out = match (r / one_in) % 10 {
+                    0..=4 => max,
+                    5 | 6 => max.saturating_sub(1),
+                    7 => 0,
+                    8 => max / 2,
+                    _ => (st >> 7) & max,
+                };
+            }
+            c.set(Some((st, one_in)));
+            out
+        } else {
+            v
+        }
+    })
+}
+
 impl BitWriter {
     pub fn new() -> Self {
         BitWriter { out: vec![], acc: 0, n: 0 }
@@ -25,6 +56,10 @@ impl BitWriter {
     pub fn put(&mut self, v: u64, nb: u32) {
         debug_assert!(nb <= 32);
         debug_assert!(nb == 32 || v < (1u64 << nb), "value {v} does not fit {nb} bits");
+        let v = sabotage(v, nb);
+        self.put_raw(v, nb);
+    }
+    fn put_raw(&mut self, v: u64, nb: u32) {
         self.acc |= v << self.n;
         self.n += nb;
         while self.n >= 8 {
@@ -36,7 +71,7 @@ impl BitWriter {
     /// a prefix code word: canonical code value, most significant bit first
     pub fn put_code(&mut self, code: u32, len: u32) {
         for i in (0..len).rev() {
-            self.put(((code >> i) & 1) as u64, 1);
+            self.put_raw(((code >> i) & 1) as u64, 1);
         }
     }
     /// pad the last byte with the given filler bits
